@@ -146,6 +146,11 @@ PostMap(g) ==
      THEN {<<Flat(<<o[1], 0, 0, 0, Flat(<<o[2], o[3]>>, <<OH(g), OW(g)>>)>>, rs), Flat(o, os)>> : o \in AllIdx(os)}
      ELSE {<<Flat(<<Flat(o, os)>> \o [j \in 1..(Len(rs) - 1) |-> 0], rs), Flat(o, os)>> : o \in AllIdx(os)}
 
+\* like_bias(data): data shaped like the postsynaptic receptive view REDUCED over its receptive (last) dimension is
+\* brought to the shape of the bias, element k of the flattened data going to element k of the bias
+BiasDataShape(g) ==
+  LET rs == PostShape(g) IN [j \in 1..(Len(rs) - 1) |-> rs[j]]
+
 \* "broadcast against the weight": without the trailing receptive dimension the view has the
 \* weight's rank and every dimension is the weight's or 1
 Front(s) == SubSeq(s, 1, Len(s) - 1)
